@@ -2,6 +2,7 @@
 // sharded Coq files holding (input, observed output) pairs, a JSONL mirror for replays, and statistics.
 // usage: sds-harness <property> <tier> <seed> <outdir> <variant>
 mod common;
+mod c12;
 mod c17;
 
 use common::*;
@@ -23,6 +24,7 @@ fn main() {
     out.stat_n(if cfg!(debug_assertions) { "build.debug" } else { "build.release" }, 1);
     out.stat_n(if cfg!(target_feature = "bmi2") { "build.bmi2" } else { "build.portable" }, 1);
     match prop {
+        "C12" => c12::run(&mut rng, &mut out, thorough, variant),
         "C17" => c17::run(&mut rng, &mut out, thorough, variant),
         _ => {
             eprintln!("unknown property {}", prop);
